@@ -16,7 +16,7 @@ DEVIATIONS = [("stretch-x", 3), ("stretch-x", 5), ("stretch-y", 2), ("mirror-x",
 SWAPS = [("swap", i, j) for i in range(5) for j in range(i + 1, 5)]
 
 
-def run_cli(src_path, seed=0, cwd=None, budget=0, history=(), noopt=False):
+def run_cli(src_path, seed=0, cwd=None, budget=0, history=(), noopt=False, history_files=()):
     env = dict(os.environ, PYTHONHASHSEED=str(seed), PYTHONPATH=f"{core.VERIF}:{harness.REPO}", PYTHONDONTWRITEBYTECODE="1")
     args = [sys.executable, "-m", "fv.canon_cli", "--src", src_path]
     if cwd:
@@ -25,6 +25,8 @@ def run_cli(src_path, seed=0, cwd=None, budget=0, history=(), noopt=False):
         args += ["--budget", str(budget)]
     for h in history:
         args += ["--history", h]
+    for h in history_files:
+        args += ["--history-file", h]
     pr = subprocess.run(args, env=env, capture_output=True, text=True, timeout=300, cwd=core.VERIF)
     if pr.returncode != 0 or not pr.stdout.strip():
         raise harness.HarnessError(f"canon_cli failed: {pr.stderr[-400:]}")
@@ -97,6 +99,15 @@ class C19(core.Check):
                     qp = os.path.join(td, f"q_{q}.facto")
                     open(qp, "w").write(CORPUS[q])
                     cmp(f"history=[{q}]", run_cli(sp, history=[qp]))
+                # an earlier compilation of a FILE whose directory holds files named like the later program's imports
+                if "import " in src:
+                    proj = os.path.join(td, "projA")
+                    os.makedirs(os.path.join(proj, "lib"))
+                    open(os.path.join(proj, "lib", "math.facto"), "w").write(
+                        "func abs(Signal x) {\n    return x * 0 + 41;\n}\nfunc max(Signal a, Signal b) {\n    return a * 0 + 1;\n}\n"
+                        "func clamp(Signal x, int low, int high) {\n    return x * 0 + 2;\n}\n")
+                    open(os.path.join(proj, "mainA.facto"), "w").write('import "lib/math.facto";\nSignal z = ("signal-Z", 3);\nSignal w = abs(z);\n')
+                    cmp("history=[file projA/mainA.facto with its own lib/math.facto]", run_cli(sp, history_files=[os.path.join(proj, "mainA.facto")]))
                 if tier == "thorough":
                     for q1, q2 in (("bundle", "cell"), ("untyped", "fanout8"), ("latch-sr", "untyped")):
                         hp = []
